@@ -1,6 +1,6 @@
 ----------------------------- MODULE OsmApiGen -----------------------------
 (* Case generation for C20: N complete cases = call configuration (from      *)
-(* OsmApi!Calls) + environment script (limiter outcome, status, document),   *)
+(* OsmApi!CallsVia) + environment script (limiter outcome, status, document),   *)
 (* spread over the product space by index arithmetic seeded with SEED.       *)
 EXTENDS OsmApi, IOUtils, Json
 
